@@ -1137,6 +1137,9 @@ func decodeExtendedSwitchFlowRecord(data *[]byte) (SFlowExtendedSwitchFlowRecord
 	es := SFlowExtendedSwitchFlowRecord{}
 	var fdf SFlowFlowDataFormat
 
+	if len(*data) < 24 {
+		return SFlowExtendedSwitchFlowRecord{}, errors.New("extended switch flow record too small")
+	}
 	*data, fdf = (*data)[4:], SFlowFlowDataFormat(binary.BigEndian.Uint32((*data)[:4]))
 	es.EnterpriseID, es.Format = fdf.decode()
 	*data, es.FlowDataLength = (*data)[4:], binary.BigEndian.Uint32((*data)[:4])
